@@ -198,10 +198,15 @@ class Checker:
 
     # ------------------------------------------------------------------ helpers
     def rej(self, rule, detail):
-        raise Reject(rule, detail, n=self.cur_n, flags={
+        raise Reject(rule, detail, n=self.cur_n, flags=self._flags())
+
+    def _flags(self):
+        return {
             "after_failure": self.after_failure,
             "in_initial": bool(self.stack and self.stack[-1].initial) or self.last_op in ("construct", "activate"),
-        })
+            # a callback of this step sent an event: order / results across events are C03's concern too
+            "nested_in_step": bool(getattr(self, "step_nested", False)),
+        }
 
     def soft(self, rule, detail):
         """A deviation after which the reference stays aligned: recorded, checking continues."""
@@ -209,6 +214,7 @@ class Checker:
             self.softs = []
         if len(self.softs) < 50:
             self.softs.append((rule, detail, self.cur_n))
+            self.__dict__.setdefault("soft_flags", []).append(self._flags())
 
     def _leave_candidate(self, ctx, why):
         """The implementation moved past the current candidate without executing it."""
@@ -471,6 +477,7 @@ class Checker:
             if op != "probe":
                 self.last_op = op
                 self.step_had_write = False
+                self.step_nested = False
             if op == "construct":
                 self.ids = None
                 self.constructed_over_stored = ev.get("stored") is not None
@@ -522,6 +529,9 @@ class Checker:
                     self.rej(f"{op}.raised", f"{op} raised {ev.get('exc')}: {ev.get('exc_msg')}")
             if op == "construct" and ev.get("ids"):
                 self.ids = ev["ids"]
+            if op == "rebind":
+                self.ids = ev["ids"]      # the machine was replaced by its clone: same state, new objects
+                self.stats["became_clone"] = self.stats.get("became_clone", 0) + 1
             if op == "add_listener" and not ev.get("exc"):
                 for p in ev.get("providers", []):
                     self.active.add(p)
@@ -680,6 +690,7 @@ class Checker:
         item = {"tok": tok, "event": ev["event"], "args": ev.get("args"), "ukw": ev.get("ukw"),
                 "nested_in": ev.get("nested")}
         if ev.get("nested"):
+            self.step_nested = True
             self.stats["nested_sends"] += 1
             c = self.ctx
             if not hasattr(self, "send_phases"):
